@@ -442,6 +442,109 @@ func c03Concurrent(r *Run, idx int, rng *rand.Rand) {
 	r.Distinct(fmt.Sprintf("concurrent/%d", idx%64))
 }
 
+// c03RestoredThenFailed: deadlines of entries that a LoadCache restored before it failed. A cache that has been up for
+// a while saves TTL entries; the stream is damaged near its end (cut short by a few bytes, or a byte of the last blocks
+// flipped), so LoadCache into a fresh cache reads the entries and then returns an error. Whatever it left in the
+// cache is subject to the property: once the entry's deadline - as established by the Set in the saving cache - has
+// passed, no Get or Range may hand it out. Time: the saving cache's clock is the reference (virtual wall clock =
+// its origin + its now + what the receiving cache was advanced by afterwards); the read is judged by that clock read
+// BEFORE the call.
+func c03RestoredThenFailed(r *Run, idx int) {
+	rng := r.Rng(int64(3900 + idx))
+	src, err := theine.NewBuilder[int, int64](1000).Build()
+	if err != nil {
+		r.Broken("build: %v", err)
+		return
+	}
+	defer src.Close()
+	sst := src.VerifStore()
+	uptime := []time.Duration{2 * time.Second, 10 * time.Minute, 3 * time.Hour}[idx%3]
+	sst.VerifShiftClock(uptime, true)
+	sst.VerifRefreshClock()
+	n := 20 + rng.Intn(40)
+	for k := 0; k < n; k++ {
+		src.SetWithTTL(k, int64(k)+1000, 1, time.Duration(2+rng.Intn(40))*time.Second)
+	}
+	src.Wait()
+	deadline := map[int]int64{}
+	for _, e := range sst.VerifSnapshot().Map {
+		deadline[e.Key] = sst.VerifClockStartNano() + e.Expire
+	}
+	var buf bytes.Buffer
+	if err := src.SaveCache(1, &buf); err != nil {
+		r.Broken("save: %v", err)
+		return
+	}
+	data := append([]byte(nil), buf.Bytes()...)
+	damage := []string{"last 3 bytes missing", "last 40 bytes missing", "a byte flipped 20 bytes before the end"}[idx/3%3]
+	switch damage {
+	case "last 3 bytes missing":
+		data = data[:len(data)-3]
+	case "last 40 bytes missing":
+		data = data[:len(data)-40]
+	default:
+		data[len(data)-20] ^= 0x41
+	}
+	dst, err := theine.NewBuilder[int, int64](1000).Build()
+	if err != nil {
+		r.Broken("build: %v", err)
+		return
+	}
+	defer dst.Close()
+	dstt := dst.VerifStore()
+	lerr := dst.LoadCache(1, bytes.NewReader(data))
+	r.Eval(1)
+	if lerr == nil {
+		r.Count("restored_then_failed_rounds_where_the_damage_went_unnoticed", 1) // C12's business
+		return
+	}
+	restored := dst.Len()
+	if restored == 0 {
+		r.Count("restored_then_failed_rounds_with_nothing_restored", 1)
+		return
+	}
+	r.Count("restored_then_failed_rounds", 1)
+	r.Count("entries_left_by_failed_loads", int64(restored))
+	var advanced, lag time.Duration
+	virt := func() int64 { return sst.VerifClockStartNano() + sst.VerifNowNano() + int64(advanced) }
+	for step := 0; step < 12; step++ {
+		d := time.Duration(1+rng.Intn(8)) * time.Second
+		dstt.VerifShiftClock(d, true)
+		advanced += d
+		// the cached clock may lag (no tick has run yet), but by less than the 30 s the read path tolerates: a longer
+		// lag is the stalled-maintenance case, which has its own cases and its own open finding
+		if lag += d; rng.Intn(2) == 0 || lag > 20*time.Second {
+			dstt.VerifRefreshClock()
+			lag = 0
+		}
+		for k, dl := range deadline {
+			before := virt()
+			v, ok := dst.Get(k)
+			if ok && before >= dl {
+				r.Violate("served-expired/get/entry-restored-by-a-loadcache-that-then-failed", fmt.Sprintf("round %d: saving cache up for %v, stream with %s, LoadCache returned %q and left %d entries; key %d (value %d) was returned by Get %.1f s after its deadline", idx, uptime, damage, lerr, restored, k, v, float64(before-dl)/1e9),
+					map[string]any{"round": idx, "uptime_of_the_saving_cache": uptime.String(), "damage": damage, "error": lerr.Error()})
+				return
+			}
+			r.Count("reads_of_entries_left_by_failed_loads", 1)
+		}
+		before := virt()
+		bad := -1
+		dst.Range(func(k int, v int64) bool {
+			if dl, ok := deadline[k]; ok && before >= dl {
+				bad = k
+				return false
+			}
+			return true
+		})
+		if bad >= 0 {
+			r.Violate("served-expired/range/entry-restored-by-a-loadcache-that-then-failed", fmt.Sprintf("round %d: saving cache up for %v, stream with %s, LoadCache returned %q and left %d entries; Range visited key %d after its deadline", idx, uptime, damage, lerr, restored, bad),
+				map[string]any{"round": idx, "uptime_of_the_saving_cache": uptime.String(), "damage": damage, "error": lerr.Error()})
+			return
+		}
+	}
+	r.Distinct(fmt.Sprintf("restored-then-failed/%v/%s", uptime, damage))
+}
+
 func runC03(r *Run) {
 	r.Rule("case = (cache kind, TTL class, maintenance stall method x virtual stall duration, read path, written by Set or loader, TTL re-timing) with a sweep of reads across the deadline and later reads at +1 tick / +35 s / +1 h; plus concurrent real-time sweeps; plus, on hybrid / hybrid-loading caches, scripted single-key lives (Set / loader / forced eviction to the secondary tier / deadline passing in either tier with the cached clock refreshed or lagging / Delete) in which a Get answered without a loader run must not return a value whose deadline has passed. " +
 		"Non-trivial = every case (each places reads within microseconds of a deadline or behind a stale cached clock); distinct by the case tuple")
@@ -493,5 +596,10 @@ func runC03(r *Run) {
 	// restored deadlines falling right after a LoadCache, in real time (c11.go)
 	for i := 0; i < r.Pick(3, 24); i++ {
 		c11DeadlineRightAfterLoad(r, 100+i)
+	}
+	for i := 0; i < r.Pick(9, 90); i++ {
+		if i%r.NShards == r.Shard {
+			c03RestoredThenFailed(r, i)
+		}
 	}
 }
